@@ -10,6 +10,10 @@ CHECKS = {
          "Every recorded call of the NAS encrypt/MAC entry points is validated by TLC against an executable TLA+ transcription of 128-NEA1/2 and 128-NIA1/2 (SNOW 3G as an explicit LFSR/FSM state machine, AES, CMAC); S-boxes and MULalpha/DIValpha exhaustively against their algebraic definitions."),
  "C15": ("TLA+ trace validation with TLC: TS 35.206 + USIM acceptance rule in TLA+",
          "f1..f5*, OPc, AUTN generation, and the accept/resync/reject verdict of every single-bit and single-octet corruption are judged by TLC against Milenage.tla (UsimCheck / AutsCheck)."),
+ "C06": ("TLA+ model checking (MCNasSec, exhaustive) + trace validation of recorded uplink histories with TLC",
+         "NasSec.tla (COUNT, envelope, receiver estimate) is model-checked exhaustively with symbolic crypto and small counter widths (NthCount, CountFresh, receiver recovers, both wraps); recorded histories of the real protection entry point (all algorithm pairs, header types, resets, wraps at 2^8/2^16/2^24) must each be a NasSec!Protect step with the real algorithms, and a conformant receiver in the spec must verify and recover every message."),
+ "C10": ("TLC-generated downlink histories (spec AMF) replayed into the real code, then trace validation with TLC",
+         "The specification's AMF (GenNasDl: NasSec!Protect, DIRECTION=downlink) generates protected downlink histories with skips, wraps and new-context resets; they are replayed through tglib.NASDecode and every step must be NasSec!Unprotect: same plain message, COUNT estimate equal to the AMF's COUNT."),
 }
 NA = {}
 def main():
@@ -22,6 +26,10 @@ def main():
                       "kind_free_text": "explicit TLA+ specification (spec/*.tla) checked and evaluated by TLC; bound to the code by trace validation (Go recorders log real-code calls; trace specs must explain every line) and by replay of TLC-generated cases"}],
          "checks": [], "not_applicable": [{"property_id": k, "reason": v} for k, v in sorted(NA.items())],
          "notes": "See DESIGN.md. known_findings.jsonl lists recorded findings and fixed defects."}
+    allp = [json.loads(l)["id"] for l in open(os.path.join(V, "properties.jsonl"))]
+    for pid in allp:
+        if pid not in CHECKS and pid not in NA:
+            m["not_applicable"].append({"property_id": pid, "reason": "check under construction in this session (planned in DESIGN.md section 5); not claimed until it runs green"})
     for pid in sorted(CHECKS):
         tech, text = CHECKS[pid]
         m["checks"].append({"property_id": pid, "quick_cmd": "bin/check %s --tier quick" % pid,
